@@ -534,7 +534,7 @@ def run(ctx: Ctx, rs: RuleSet, tier: str):
   for q, inner in ((f'{PR}.as_dict_flattened', 'dict_generate'),
                    (f'{PR}.as_str_flattened', 'generate')):
     f = ctx.func(q)
-    gfn = f.nested.get(inner)
+    gfn = ctx.p.nested_of(f, inner)
     if gfn is None:
       raise AnalysisError(f'{q}.{inner} not found')
     ys = [y for y in walk_function(gfn.node) if isinstance(y, ast.Yield) and
